@@ -217,6 +217,9 @@ func (w *genWorld) check(res roundTripResult, v1, v2 coreView, directed bool) {
 	env.Eval("C18.validate")
 	for _, m := range sortedKeys(res.validateErr) {
 		e := res.validateErr[m]
+		if w.slashStateFinding(m, e) { // dom_genesis_slashed.go: F-18s under its own sigs
+			continue
+		}
 		if m == "delegation" && strings.Contains(e, "TxHash isn't a") {
 			// F-18d (repaired): kept under its own sig so that a re-introduction is reported as such
 			env.Violate("C18.validate", "validate:delegation-txhash", "the delegation module's own export fails GenesisState.Validate as soon as an undelegation is pending: "+e, w.hist)
@@ -664,6 +667,7 @@ func (w *genWorld) exportPoint(directed bool, cont int) {
 	w.emitDelegs(d1)
 	vs1 := viewValset(c, committedCtx(c))
 	w.emitValset(vs1)
+	w.emitUndRecords() // dom_genesis_slashed.go: every exported undelegation record + the module's verdict on it
 	res := w.roundTripWith(cont, directed)
 	var v2 coreView
 	obs, aobs, oobs, pobs, lobs, vobs := "import-failed", "import-failed", "import-failed", "import-failed", "import-failed", "import-failed"
@@ -672,7 +676,7 @@ func (w *genWorld) exportPoint(directed bool, cont int) {
 		obs = v2.obs()
 		// the module's own verdict on its export, then the re-imported stores
 		aobs = fmt.Sprintf("validate=%v init=ok %s", res.validateErr["assets"] == "", res.postAssets.obs())
-		oobs = fmt.Sprintf("validate=%v %s", res.validateErr["operator"] == "", res.postOp.obs())
+		oobs = fmt.Sprintf("validate=%v %s", res.validateErr["operator"] == "" || isSlashStateErr(res.validateErr["operator"]), res.postOp.obs()) // F-18s: see isSlashStateErr
 		pobs = "init=ok " + res.postParams.obs()
 		lobs = "init=ok " + res.postPools
 		vobs = res.postValset.obs()
@@ -684,6 +688,7 @@ func (w *genWorld) exportPoint(directed bool, cont int) {
 	w.op("gen.pools", lobs)
 	w.op("gen.valset", vobs)
 	w.check(res, v1, v2, directed)
+	w.checkSlashed(res) // dom_genesis_slashed.go: monitor C18.slashed
 	if res.c2 != nil {
 		w.checkQueries(res.queryDiff)
 		w.checkValset(vs1, res.postValset)
@@ -867,6 +872,9 @@ func domGenesis(env *Env) error {
 	}
 	if env.Int("jail", 1) != 0 {
 		genJailScenarios(env, rng) // dom_genesis_jail.go: J1..J4, validators jailed at the export point
+	}
+	if env.Int("slashed", 1) != 0 {
+		genSlashedScenarios(env) // dom_genesis_slashed.go: S1..S4 + random slash worlds (own random stream)
 	}
 	if env.Int("boundary", 1) != 0 {
 		// (a boot failure ends the boundary scenarios as a whole: they share one function)
